@@ -104,6 +104,20 @@ def unguarded_path(e, g, site, alternatives, start=None):
             for atom in atoms_of_test(n.ast, label == 'T', n.frame):
                 if atom in alts:
                     return True
+            # the edge establishes a disjunction (false edge of `a and b`,
+            # true edge of `a or b`) every member of which is an alternative
+            import ast as _ast
+            t = n.ast
+            if isinstance(t, _ast.BoolOp) and (
+                    (label == 'F' and isinstance(t.op, _ast.And)) or
+                    (label == 'T' and isinstance(t.op, _ast.Or))):
+                ok = True
+                for v in t.values:
+                    ats = atoms_of_test(v, label == 'T', n.frame)
+                    if len(ats) != 1 or ats[0] not in alts:
+                        ok = False
+                if ok:
+                    return True
         return False
     return dataflow.typestate_witness(
         g, False, step, lambda n, st: n is site and not st, start=start)
@@ -137,3 +151,68 @@ def per_iteration_counts(g, lp, count, cap=3):
                     continue
                 out |= set(min(cap, x + c) for x in st) if c else set(st)
     return frozenset(out)
+
+
+SNAPSHOT_CALLS = {'list', 'tuple', 'sorted', 'copy', 'deepcopy'}
+
+
+def _snapshot_of(x: ast.AST):
+    """text of L when x is a copy of L taken for iteration, else None"""
+    if isinstance(x, ast.Call):
+        fn = x.func
+        nm = fn.attr if isinstance(fn, ast.Attribute) else (
+            fn.id if isinstance(fn, ast.Name) else '')
+        if nm in SNAPSHOT_CALLS and len(x.args) == 1 and \
+                isinstance(fn, (ast.Name, ast.Attribute)) and not (
+                    isinstance(fn, ast.Attribute) and nm == 'copy' and
+                    not x.args):
+            return ast.unparse(x.args[0])
+        if isinstance(fn, ast.Attribute) and nm == 'copy' and not x.args:
+            return ast.unparse(fn.value)
+    if isinstance(x, ast.Subscript) and isinstance(x.slice, ast.Slice) and \
+            x.slice.lower is None and x.slice.upper is None:
+        return ast.unparse(x.value)
+    return None
+
+
+def stale_index_sites(fn: ast.AST):
+    """Positional updates of a list L that can change its length, made with
+    an index that enumerates a *snapshot* of L taken before the loop: after
+    the first length-changing update the index no longer denotes the element
+    it was paired with.  Yields (loop, site, list text, index name)."""
+    for lp in ast.walk(fn):
+        if not isinstance(lp, ast.For):
+            continue
+        it = lp.iter
+        if not (isinstance(it, ast.Call) and
+                ast.unparse(it.func) == 'enumerate' and it.args and
+                isinstance(lp.target, ast.Tuple) and lp.target.elts and
+                isinstance(lp.target.elts[0], ast.Name)):
+            continue
+        L = _snapshot_of(it.args[0])
+        if L is None:
+            continue
+        i = lp.target.elts[0].id
+
+        def uses_i(x):
+            return any(isinstance(y, ast.Name) and y.id == i
+                       for y in ast.walk(x))
+        for st in lp.body:
+            for n in ast.walk(st):
+                tgs = []
+                if isinstance(n, ast.Assign):
+                    tgs = [t for t in n.targets
+                           if isinstance(t, ast.Subscript) and
+                           isinstance(t.slice, ast.Slice)]
+                elif isinstance(n, ast.Delete):
+                    tgs = [t for t in n.targets
+                           if isinstance(t, ast.Subscript)]
+                for t in tgs:
+                    if ast.unparse(t.value) == L and uses_i(t.slice):
+                        yield lp, n, L, i
+                if isinstance(n, ast.Call) and \
+                        isinstance(n.func, ast.Attribute) and \
+                        n.func.attr in ('insert', 'pop') and \
+                        ast.unparse(n.func.value) == L and n.args and \
+                        uses_i(n.args[0]):
+                    yield lp, n, L, i
